@@ -474,6 +474,16 @@ ResolvedOnce == [][\A c \in 1..NCmds : m.res[c].k # "p" => m'.res[c] = m.res[c]]
 NoWriteAfterLoss == [][m.lost => m'.wire = m.wire]_vars
 NoWriteWhileOutstanding == [][(Len(m.wire) > Len(replies) /\ Len(replies') = Len(replies)) => m'.wire = m.wire]_vars
 
+\* Liveness.  Tor, as long as the connection is up, goes on sending the lines of what it has begun and answers the
+\* command that has been written.  Under that assumption no command stays unresolved for ever - whatever callbacks
+\* re-submit, whoever gives up on what, and whenever the connection is lost - and the queue drains again and again.
+TorFair == WF_vars(Line) /\ WF_vars(\E rs \in ReplyShapes : BeginReply(rs[1], rs[2]))
+LiveSpec == Spec /\ TorFair
+MaxAll == 16       \* more than any bounded configuration creates
+EveryCommandResolves == \A c \in 1..MaxAll : (c <= NCmds) ~> (c <= NCmds /\ m.res[c].k # "p")
+QueueDrains == []<>(m.queue = <<>>)
+FewEnough == NCmds <= MaxAll
+
 TypeOK == /\ m.fsm \in {"IDLE", "RECV", "RECV_PLUS"}
           /\ Len(m.res) = NCmds /\ Len(m.cbgot) = NCmds
 
